@@ -192,7 +192,79 @@ def _concrete_bytesio(ex, recv, name, args, kwargs, st, node):
 
 
 # ---------------------------------------------------------------------- method on symbolic receiver
+def struct_layout(fmt):
+    """(byte order, [field sizes]) of a struct format made of unsigned integer codes with an explicit byte order; None for anything else"""
+    import re as _re
+
+    if not isinstance(fmt, (str, bytes)):
+        return None
+    if isinstance(fmt, bytes):
+        fmt = fmt.decode("latin-1")
+    m = _re.fullmatch(r"\s*([<>!])((?:\s*\d*[BHILQ])*)\s*", fmt)
+    if not m:
+        return None
+    sizes = []
+    for cnt, code in _re.findall(r"(\d*)([BHILQ])", m.group(2)):
+        sizes += [{"B": 1, "H": 2, "I": 4, "L": 4, "Q": 8}[code]] * (int(cnt) if cnt else 1)
+    return ("little" if m.group(1) == "<" else "big"), sizes
+
+
+def struct_unpack(ex, fmt, data: Term, st: State, node) -> Optional[Term]:
+    """struct.unpack(fmt, data) for unsigned fixed-width fields: a tuple of int.from_bytes(data[a:b], order) values"""
+    lay = struct_layout(fmt)
+    if lay is None:
+        return None
+    order, sizes = lay
+    total = sum(sizes)
+    items = ex.iter_items(data, st) if ex.sym_bytes else None
+    if ex.sym_bytes and items is not None:
+        if len(items) != total:
+            ex.emit("extcall", node, st, name="struct.unpack", recv=None, args=(C(fmt), data), kwargs={}, result=None, pure=True, certain_fail="struct.error")
+            raise PathDead()
+        from .exprs import sbytes
+
+        out, pos = [], 0
+        for n_ in sizes:
+            out.append(call_builtin(ex, "int.from_bytes", [sbytes(items[pos:pos + n_]), C(order)], {}, st, node))
+            pos += n_
+        return mk("tuple", tuple(out))
+    fields, pos = [], 0
+    res_fields = []
+    for n_ in sizes:
+        piece = mk("slice", data, C(pos), C(pos + n_), NONE)
+        v = mk("call", mk("builtin", "int.from_bytes"), (piece, C(order)), (), 0)
+        res_fields.append(v)
+        fields.append((n_, v))
+        pos += n_
+    res = mk("tuple", tuple(res_fields))
+    ex.emit("extcall", node, st, name="struct.unpack", recv=None, args=(C(fmt), data), kwargs={}, result=res, pure=True, fields=tuple(fields), order=order, total=total)
+    return res
+
+
+def struct_pack(ex, fmt, vals, st: State, node) -> Optional[Term]:
+    """struct.pack(fmt, *vals) for unsigned fixed-width fields: the concatenation of v.to_bytes(size, order)"""
+    lay = struct_layout(fmt)
+    if lay is None or len(lay[1]) != len(vals) or not vals:
+        return None
+    order, sizes = lay
+    out = None
+    for v, n_ in zip(vals, sizes):
+        piece = ex.call_method(v, "to_bytes", [C(n_), C(order)], {}, st, node) if hasattr(ex, "call_method") else method_on_symbolic(ex, v, "to_bytes", [C(n_), C(order)], {}, st, node)
+        out = piece if out is None else ex.binop("Add", out, piece, st, node)
+    return out
+
+
 def method_on_symbolic(ex, recv: Term, name: str, args, kwargs, st: State, node, ext_base: Optional[str] = None) -> Term:
+    if recv.op == "structobj" and ext_base is None:
+        fmt = recv.args[0]
+        if name == "unpack" and len(args) == 1:
+            r_ = struct_unpack(ex, fmt, args[0], st, node)
+            if r_ is not None:
+                return r_
+        if name == "pack":
+            r_ = struct_pack(ex, fmt, list(args), st, node)
+            if r_ is not None:
+                return r_
     if ex.sym_bytes and name == "to_bytes" and ext_base is None and args and is_const(args[0]) and isinstance(cval(args[0]), int) and 0 < cval(args[0]) <= 64:
         order = args[1] if len(args) > 1 else kwargs.get("byteorder")
         if order is not None and is_const(order) and cval(order) == "big" and not kwargs.get("signed") and ex.obj(st, recv) is None and recv.op in ("call", "param", "sym", "bin", "uf"):
@@ -846,8 +918,51 @@ def call_ext(ex, name: str, args, kwargs, st: State, node) -> Term:
     if name == "struct.unpack" and len(A) == 2 and is_const(A[0]):
         fmt = cval(A[0])
         items = ex.iter_items(A[1], st)
-        if fmt in (">i", ">I") and items is not None and len(items) == 4:
+        if fmt in (">i", ">I") and items is not None and len(items) == 4 and not ex.sym_bytes:
             return mk("tuple", (mk("word", fmt, tuple(items)),))
+        r_ = struct_unpack(ex, fmt, A[1], st, node)
+        if r_ is not None:
+            return r_
+    if name == "struct.calcsize" and len(A) == 1 and is_const(A[0]):
+        import struct as _struct
+
+        try:
+            return C(_struct.calcsize(cval(A[0])))
+        except (_struct.error, TypeError):
+            pass
+    if name == "struct.Struct" and len(A) == 1 and is_const(A[0]) and struct_layout(cval(A[0])) is not None:
+        return mk("structobj", cval(A[0]))
+    if name == "struct.pack" and A and is_const(A[0]):
+        r_ = struct_pack(ex, cval(A[0]), list(A[1:]), st, node)
+        if r_ is not None:
+            return r_
+    if name in ("functools.reduce", "reduce") and len(A) == 3 and not kwargs and A[0].op in ("closure", "func", "bound", "builtin"):
+        # reduce(f, xs, init) is `acc = init; for x in xs: acc = f(acc, x)`: interpreted as exactly that loop
+        import ast as _ast
+
+        loop = _ast.parse("for __reduce_x in __reduce_it:\n    __reduce_acc = __reduce_fn(__reduce_acc, __reduce_x)\n").body[0]
+        for n_ in _ast.walk(loop):
+            if hasattr(n_, "lineno"):
+                n_.lineno = getattr(node, "lineno", 0)
+                n_.end_lineno = getattr(node, "end_lineno", getattr(node, "lineno", 0))
+                n_.col_offset = getattr(node, "col_offset", 0)
+                n_.end_col_offset = getattr(node, "end_col_offset", 0)
+        env = st.envs[-1]
+        saved = {k: env.get(k) for k in ("__reduce_fn", "__reduce_it", "__reduce_acc", "__reduce_x")}
+        env["__reduce_fn"], env["__reduce_it"], env["__reduce_acc"] = A[0], A[1], A[2]
+        out = ex.st_for(loop, st)
+        if out is None:
+            raise PathDead()
+        res = out.envs[-1].get("__reduce_acc")
+        st.heap, st.envs, st.facts, st.ctx = out.heap, out.envs, out.facts, out.ctx
+        env = st.envs[-1]
+        for k, v in saved.items():
+            if v is None:
+                env.pop(k, None)
+            else:
+                env[k] = v
+        if res is not None:
+            return res
     if name in ("re.sub",) and len(A) >= 3:
         try:
             vals = _conc_args(ex, A[:3], st)
